@@ -207,6 +207,12 @@ func countKeys(v model.V) int {
 func checkC06(ci any, info *CaseInfo) string {
 	c := ci.(*DocCase)
 	exp, n, st, uinfo := ref.DecodeUBJSON(c.Doc)
+	// trailing top-level no-ops ("keep-alive" bytes after the value) carry no value
+	for st == ref.OK && n < len(c.Doc) && c.Doc[n] == 'N' {
+		n++
+		uinfo.Noop = true
+		info.Class("trailing_noop")
+	}
 	if st != ref.OK || n != len(c.Doc) {
 		return fmt.Sprintf("harness: case document %q is not one valid UBJSON value (%v, %d/%d bytes)", trunc(c.Doc), st, n, len(c.Doc))
 	}
@@ -273,14 +279,35 @@ func init() {
 	})
 	register(&Property{
 		ID:   "C06",
-		Rule: "rapid draws a value tree (int64, float32/64 bits, strings incl. decimal spellings, homogeneous and mixed containers) and renders it with the harness' constructive UBJSON encoder under drawn choices (every integer marker that holds the value, C, H, any length marker i/U/I/l/L, plain/counted/typed containers incl. typed containers of containers, no-ops at top level and in plain arrays); 1 in 4 documents is parsed after 1..2 earlier calls of the package-level Parse on truncated prefixes / hostile headers; 1 in 3 documents arrives through ParseReader in generated chunks; oracle = independent draft-12 decoder; non-trivial = counted/typed container, non-minimal length marker, no-op or depth>=2; distinct by document hash",
+		Rule: "rapid draws a value tree (int64, float32/64 bits, strings incl. decimal spellings, homogeneous and mixed containers) and renders it with the harness' constructive UBJSON encoder under drawn choices (every integer marker that holds the value, C, H, any length marker i/U/I/l/L, plain/counted/typed containers incl. typed containers of containers, no-ops at top level (before and after the value) and in plain arrays); deterministic part: 8 fixed documents framed by leading/trailing no-ops, whole and cut at every position; 1 in 4 documents is parsed after 1..2 earlier calls of the package-level Parse on truncated prefixes / hostile headers; 1 in 3 documents arrives through ParseReader in generated chunks; oracle = independent draft-12 decoder; non-trivial = counted/typed container, non-minimal length marker, no-op or depth>=2; distinct by document hash",
 		New:  func() any { return &DocCase{} },
 		Draw: func(t *rapid.T) any {
 			v := gen.Value(t, gen.ValueCfg{IntRange: "int64", Floats32: true, Decimals: true, Deep: true})
 			e := newUBJEnc(t)
 			e.Encode(v)
+			if tail := rapid.IntRange(0, 7).Draw(t, "tailnoop"); tail >= 6 && !gen.Excluded("ubjson.noop") {
+				e.Out = append(e.Out, "NN"[:tail-5]...)
+			}
 			return &DocCase{Doc: e.Out, Prev: drawPrev(t, e.Out, c03Hostile["ubjson"]), Cuts: drawDocCuts(t, e.Out, e.Spans)}
 		},
 		Check: checkC06,
+		Enum: func(emit func(c any) bool) {
+			// fixed documents framed by top-level no-ops, whole and cut at every position
+			for _, set := range c18EnumDocs["ubjson"] {
+				for _, d := range set {
+					for _, doc := range []string{d, "N" + d, d + "N", "NN" + d + "NN"} {
+						for cut := 0; cut < len(doc); cut++ {
+							c := &DocCase{Doc: []byte(doc)}
+							if cut > 0 {
+								c.Cuts = []int{cut}
+							}
+							if !emit(c) {
+								return
+							}
+						}
+					}
+				}
+			}
+		},
 	})
 }
